@@ -150,15 +150,19 @@ func (r *RequireModule) loadAsDirectory(modpath string) (module *js.Object, err 
 	if err != nil {
 		return r.loadIndex(modpath)
 	}
-	var pkg struct {
-		Main string
+	// Only the member named exactly "main" counts (decoding into a struct field would also accept "Main" or "MAIN").
+	var pkg map[string]json.RawMessage
+	var main string
+	if err = json.Unmarshal(buf, &pkg); err == nil {
+		if raw, ok := pkg["main"]; ok {
+			err = json.Unmarshal(raw, &main)
+		}
 	}
-	err = json.Unmarshal(buf, &pkg)
-	if err != nil || len(pkg.Main) == 0 {
+	if err != nil || len(main) == 0 {
 		return r.loadIndex(modpath)
 	}
 
-	m := r.resolvePath(modpath, pkg.Main)
+	m := r.resolvePath(modpath, main)
 	if module, err = r.loadAsFile(m); module != nil || err != nil {
 		return
 	}
